@@ -38,4 +38,16 @@ MPSA_CT_ALL(unsigned short)
 MPSA_CT_ALL(unsigned int)
 MPSA_CT_ALL(unsigned long)
 MPSA_CT_ALL(unsigned long long)
+// mixed operands: SafeInt<T> op U and U op SafeInt<T> for a selection of type pairs (wider, narrower, other signedness)
+#define MPSA_MIX(T, U)                                                  \
+  template SafeInt<T> operator+(SafeInt<T>, U);  template SafeInt<T> operator+(U, SafeInt<T>);  \
+  template SafeInt<T> operator-(SafeInt<T>, U);  template SafeInt<T> operator-(U, SafeInt<T>);  \
+  template SafeInt<T> operator*(SafeInt<T>, U);  template SafeInt<T> operator*(U, SafeInt<T>);
+#define MPSA_MIX_ALL(T)                                                 \
+  MPSA_MIX(T, short) MPSA_MIX(T, int) MPSA_MIX(T, long) MPSA_MIX(T, unsigned int) MPSA_MIX(T, unsigned long)
+
+MPSA_MIX_ALL(int)
+MPSA_MIX_ALL(unsigned int)
+MPSA_MIX_ALL(long)
+MPSA_MIX_ALL(unsigned long)
 }  // namespace mp
